@@ -258,6 +258,11 @@ func (ss *session) execPlan(p *plan, args []any, resfmt []int16, describeRow boo
 		if code == "" {
 			code = "57014"
 		}
+		if p.kind == "commit" || p.kind == "rollback" {
+			// PostgreSQL: a COMMIT that fails ends the transaction (rolled back); the
+			// session is idle afterwards, never "still in the transaction"
+			ss.rollback("failed " + p.kind)
+		}
 		ss.sendErr(pgerr(code, "injected fault at %s", p.kind))
 		return true, true
 	case DropBefore:
